@@ -4,12 +4,16 @@ import os, json
 import vlib
 
 
-def run(chk, d, binpath, input_bytes, K, tag, maxsteps=60000000, heap="3g"):
-    """-> (segments judged ok, instructions validated); violations are filed on chk"""
-    exe = vlib.build_cxx("seg_run", ["seg_run.cpp"], flags=["-O2"])
+def run(chk, d, binpath, input_bytes, K, tag, maxsteps=60000000, heap="3g", rtl_exe=None, who="hexsim"):
+    """-> (segments judged ok, instructions validated, end record); violations are filed on chk.  rtl_exe: a Verilated rtl_sys harness
+    (its seg mode writes the same records: K clocks from a recorded state must be K instructions of HexISA)"""
     inf = os.path.join(d, tag + ".in"); open(inf, "wb").write(bytes(input_bytes))
     of = os.path.join(d, tag + ".segs.ndjson"); sc = os.path.join(d, tag + ".scratch"); os.makedirs(sc, exist_ok=True)
-    p = vlib.sh([exe, binpath, inf, str(K), of, sc, str(maxsteps)], timeout=3600)
+    if rtl_exe:
+        p = vlib.sh([rtl_exe, "seg", binpath, inf, str(K), of, str(maxsteps)], cwd=sc, timeout=3600)
+    else:
+        exe = vlib.build_cxx("seg_run", ["seg_run.cpp"], flags=["-O2"])
+        p = vlib.sh([exe, binpath, inf, str(K), of, sc, str(maxsteps)], timeout=3600)
     lines = open(of).read().splitlines()
     if p.returncode != 0 or not lines or '"end":true' not in lines[-1]:
         raise vlib.MachineryError("seg_run failed (%d): %s" % (p.returncode, p.stderr.decode(errors='replace')[-500:]))
@@ -42,7 +46,7 @@ def run(chk, d, binpath, input_bytes, K, tag, maxsteps=60000000, heap="3g"):
         if v['v'] in ('ok', 'ok-undef'):
             ok += 1
         else:
-            chk.violation("segment:%s:%s" % (tag, v['why'][:40]), "run %s, segment %d (instructions %d..): hexsim differs from HexISA: %s" % (tag, v['seg'], v['seg'] * K, v['why']),
+            chk.violation("segment:%s:%s" % (tag, v['why'][:40]), "run %s, segment %d (instructions %d..): %s differs from HexISA: %s" % (tag, v['seg'], v['seg'] * K, who, v['why']),
                           {"segment.json": segs[v['seg']][:2000000]})
     # output of the whole run
     want = {0: bytes.fromhex(end['stdout'])}
